@@ -25,7 +25,7 @@ impl C15Direct {
         if tier == Tier::Thorough {
             for x in &a { for y in &a { for z in &a { for w in &a { seqs.push(vec![x.clone(), y.clone(), z.clone(), w.clone()]); } } } }
         }
-        C15Direct { seqs, n_rand: if tier == Tier::Quick { 30_000 } else { 300_000 }, seed }
+        C15Direct { seqs, n_rand: if tier == Tier::Quick { 120_000 } else { 800_000 }, seed }
     }
     fn pick(&self, idx: u64) -> Vec<T> {
         if (idx as usize) < self.seqs.len() { return self.seqs[idx as usize].clone(); }
